@@ -81,26 +81,44 @@ type nonceReader struct {
 	ks    []*big.Int
 	size  int
 	n     *big.Int
-	reads int
+	reads int // whole nonces consumed so far
 	i     int
+	buf   []byte // unread bytes of the current nonce encoding
+	chunk int    // 0: answer each Read in full; otherwise at most chunk bytes per Read (io.Reader allows short reads)
+	used  int
+}
+
+var chunkCycle int
+
+// the reader is a byte stream; how it cuts the stream into Read results must not matter (io.ReadFull semantics)
+func nextChunk() int {
+	chunkCycle++
+	return []int{0, 0, 1, 7}[chunkCycle%4]
 }
 
 func (r *nonceReader) Read(p []byte) (int, error) {
-	if r.i >= len(r.ks) {
-		return 0, io.EOF
+	if len(r.buf) == 0 {
+		if r.i >= len(r.ks) {
+			return 0, io.EOF
+		}
+		v := new(big.Int).Sub(r.ks[r.i], big.NewInt(1)) // k = (bytes mod (n-1)) + 1
+		b := v.Bytes()
+		r.buf = make([]byte, r.size)
+		copy(r.buf[r.size-len(b):], b)
+		r.i++
 	}
-	if len(p) != r.size {
-		return 0, fmt.Errorf("unexpected read size %d", len(p))
+	n := len(p)
+	if n > len(r.buf) {
+		n = len(r.buf)
 	}
-	v := new(big.Int).Sub(r.ks[r.i], big.NewInt(1)) // k = (bytes mod (n-1)) + 1
-	b := v.Bytes()
-	for i := range p {
-		p[i] = 0
+	if r.chunk > 0 && n > r.chunk {
+		n = r.chunk
 	}
-	copy(p[len(p)-len(b):], b)
-	r.i++
-	r.reads++
-	return len(p), nil
+	copy(p, r.buf[:n])
+	r.buf = r.buf[n:]
+	r.used += n
+	r.reads = r.used / r.size
+	return n, nil
 }
 
 func recoverStr(f func()) (s string) {
@@ -209,7 +227,7 @@ func c01toy(args []string) error {
 				if !t.Ok {
 					ks = append(ks, big.NewInt(int64(t.K2)))
 				}
-				rd := &nonceReader{ks: ks, size: 9, n: curve.params.N}
+				rd := &nonceReader{ks: ks, size: 9, n: curve.params.N, chunk: nextChunk()}
 				o := map[string]interface{}{"k": t.K}
 				var rr, ss *big.Int
 				var serr error
@@ -335,7 +353,7 @@ func c01real(args []string) error {
 				priv := privOf(c["d"].(string))
 				id := idBytes(c["id"].(map[string]interface{}))
 				msg := msgBytes(int(c["mf"].(float64)), int(c["mlen"].(float64)))
-				rd := &nonceReader{ks: hexList(c["ks"]), size: 40}
+				rd := &nonceReader{ks: hexList(c["ks"]), size: 40, chunk: nextChunk()}
 				r, s, err := sm2.Sm2Sign(priv, msg, id, rd)
 				got["px"], got["py"] = priv.X.Text(16), priv.Y.Text(16)
 				zid := id
@@ -355,7 +373,7 @@ func c01real(args []string) error {
 				}
 				if c["id"].(map[string]interface{})["kind"] == "default" {
 					// the crypto.Signer form: DER, default user id
-					rd2 := &nonceReader{ks: hexList(c["ks"]), size: 40}
+					rd2 := &nonceReader{ks: hexList(c["ks"]), size: 40, chunk: nextChunk()}
 					der, e := priv.Sign(rd2, msg, nil)
 					if e == nil {
 						got["der"] = hex.EncodeToString(der)
@@ -383,7 +401,7 @@ func c01real(args []string) error {
 					if mode == sm2.C1C2C3 {
 						tag = "c1c2c3"
 					}
-					rd := &nonceReader{ks: hexList(c["ks"]), size: 40}
+					rd := &nonceReader{ks: hexList(c["ks"]), size: 40, chunk: nextChunk()}
 					done := make(chan struct{})
 					var ct []byte
 					var err error
@@ -409,7 +427,7 @@ func c01real(args []string) error {
 					}
 				}
 				// ASN.1 form of the same encryption
-				rd := &nonceReader{ks: hexList(c["ks"]), size: 40}
+				rd := &nonceReader{ks: hexList(c["ks"]), size: 40, chunk: nextChunk()}
 				if ct, err := sm2.EncryptAsn1(&priv.PublicKey, msg, rd); err == nil {
 					got["asn1"] = ints(ct)
 					pt, e := sm2.DecryptAsn1(priv, ct)
